@@ -120,6 +120,7 @@ pub enum Op {
     Abort,
     Exit,
     MainDone,
+    SelectStart,
 }
 
 #[derive(Clone, Copy, Debug, PartialEq, Eq)]
@@ -232,6 +233,7 @@ struct World {
     rng_yield: Rng,
     rng_io: Rng,
     rng_worker: Rng,
+    rng_select: Rng,
     /// the simulated OS thread the current poll runs on (0 = main thread, 1.. = workers)
     thread: u16,
     tick: u64,
@@ -959,6 +961,19 @@ pub mod time {
 // Thread identity: per-(simulated-)thread storage
 // ---------------------------------------------------------------------------------------------
 
+/// The branch an unbiased `select!` starts polling at: seeded, part of the event log.
+pub fn select_start(branches: u32) -> u32 {
+    if branches == 0 {
+        return 0;
+    }
+    with_world(|w| {
+        let k = w.rng_select.below(branches as usize) as u32;
+        w.log(Op::SelectStart, branches, k);
+        k
+    })
+    .unwrap_or(0)
+}
+
 /// The simulated OS thread the code is running on right now: 0 is the main thread (`block_on`
 /// and everything outside a poll), 1.. are the runtime's workers.
 pub fn current_thread() -> u16 {
@@ -1244,6 +1259,7 @@ impl Sim {
                 rng_yield: Rng::derive(seed, "yield"),
                 rng_io: Rng::derive(seed, "io"),
                 rng_worker: Rng::derive(seed, "worker"),
+                rng_select: Rng::derive(seed, "select"),
                 thread: 0,
                 cfg,
                 tick: 0,
